@@ -648,6 +648,9 @@ def run(chk):
         if key in seen:
             continue
         seen[key] = i
+        # quick tier: the exhaustive operator-pair families go to the model one in three (all of them to the implementation)
+        if not thorough and terms[c[0]][1] in ("pair", "opfn") and len(seen) % 3:
+            continue
         mcases.append((key, impl[i].encode()))
         morig.append(i)
 
